@@ -3,6 +3,7 @@ package props
 import (
 	"fmt"
 	"strconv"
+	"strings"
 	"testing"
 
 	m2 "github.com/goark/go-cvss/v2/metric"
@@ -189,8 +190,23 @@ var checkC20Table = register("C20/table", func(c tableCase) string {
 			return msg
 		}
 	}
-	// out-of-range integers: no panic (enforced by the caller's guard), print empty
+	// out-of-range integers: no panic (enforced by the caller's guard), print empty, and —
+	// being no table entry — carry no weight of their own: they must be treated exactly like
+	// the metric's unknown/invalid value (same weight in every context, never "defined").
+	// Besides the neighbourhood of the range, integers that alias a defined value under
+	// truncation to 8, 16 or 32 bits are tried.
+	var probes []int64
 	for v := int64(-8); v <= int64(len(m.Codes))+8; v++ {
+		probes = append(probes, v)
+	}
+	for k := int64(0); k <= int64(len(m.Codes))+1; k++ {
+		for _, sh := range []uint{8, 16, 32} {
+			probes = append(probes, k+1<<sh, k+2<<sh, k-(1<<sh), k|1<<(sh-1))
+		}
+	}
+	ctxs := []wctx{{}, {S: m3.ScopeChanged, MS: m3.ModifiedScopeChanged, PR: m3.PrivilegesRequiredHigh, AV: m3.AttackVectorLocal, AC: m3.AttackComplexityHigh, UI: m3.UserInteractionRequired, C: m3.ConfidentialityImpactLow, I: m3.IntegrityImpactLow, A: m3.AvailabilityImpactLow},
+		{S: m3.ScopeUnchanged, MS: m3.ModifiedScopeNotDefined, PR: m3.PrivilegesRequiredLow}, {S: m3.ScopeChanged, MS: m3.ModifiedScopeUnchanged, PR: m3.PrivilegesRequiredLow}}
+	for _, v := range probes {
 		if _, defined := seen[v]; defined {
 			continue
 		}
@@ -199,10 +215,36 @@ var checkC20Table = register("C20/table", func(c tableCase) string {
 		}
 		_ = a.valid(v)
 		if a.value != nil {
-			_, _ = a.value(v, wctx{S: m3.ScopeChanged, MS: m3.ModifiedScopeChanged, PR: m3.PrivilegesRequiredHigh})
+			for _, ctx := range ctxs {
+				got, _ := a.value(v, ctx)
+				unk, _ := a.value(0, ctx)
+				if got != unk {
+					return fmt.Sprintf("%s: out-of-range value %d has weight %v, the unknown/invalid value has %v in the same context (%+v)", id, v, got, unk, ctx)
+				}
+			}
 		}
 		if a.defined != nil {
-			_, _ = a.defined(v)
+			if d, _ := a.defined(v); d && v != 0 {
+				// (v2 IsDefined is 'valid and not ND'; for garbage integers only no-panic is required)
+				_ = d
+			}
+		}
+	}
+	// a defined value under an out-of-range *context* (scope / base metric) must not pick up
+	// a weight either: PR under an undefined scope, Modified X over an undefined base value
+	if c.Ver == 3 && a.value != nil && (m.Name == "PR" || m.BaseOf != "") {
+		for i := range m.Codes {
+			k := constOf(3, m.Name, i)
+			for _, junk := range []int64{0, 7, 65537, 65538, 1<<32 + 1, -1} {
+				ctx := wctx{S: m3.Scope(junk), MS: m3.ModifiedScope(junk), PR: m3.PrivilegesRequired(junk), AV: m3.AttackVector(junk), AC: m3.AttackComplexity(junk), UI: m3.UserInteraction(junk), C: m3.ConfidentialityImpact(junk), I: m3.IntegrityImpact(junk), A: m3.AvailabilityImpact(junk)}
+				got, _ := a.value(k, ctx)
+				ref0, _ := a.value(k, wctx{})
+				if m.Name == "PR" || i == 0 { // weight depends on the context only for PR and for Modified X
+					if got != ref0 {
+						return fmt.Sprintf("%s: code %s under the out-of-range context value %d has weight %v, under the unknown context %v", id, m.Codes[i], junk, got, ref0)
+					}
+				}
+			}
 		}
 	}
 	return ""
@@ -405,7 +447,7 @@ var codeAlphabet = []byte("NALPHRUCXFTWOMDSBE nlxdp01-\t")
 func TestC20(t *testing.T) {
 	c := begin(t, "C20")
 	defer c.end()
-	c.rec.F.Rule = "tables (complete): for all 22 v3 and 14 v2 metrics every code, its exported constant, printing, the validity predicates, every weight (PR per scope; every Modified metric at every own value x every base value; MPR over all 3 x 2 x 4 x 3 combinations of MS, S, MPR, PR) and every integer in [-8, max+8]; codes: every string of length <= 3 over a 28-character alphabet (all code letters, lower case, digits, dash, space, tab) at every metric's parser plus rapid arbitrary strings; version: label parser/printer pairs of v3/metric and the legacy v3/version on generated labels and integers. Non-trivial = a string that is not a valid code of the metric (must parse to unknown), or a dependent-weight table; distinct by hash of (version, metric, string)."
+	c.rec.F.Rule = "tables (complete): for all 22 v3 and 14 v2 metrics every code, its exported constant, printing, the validity predicates, every weight (PR per scope; every Modified metric at every own value x every base value; MPR over all 3 x 2 x 4 x 3 combinations of MS, S, MPR, PR) every integer in [-8, max+8] and integers aliasing a defined value under 8/16/32-bit truncation (no panic, print empty, same weight as the unknown value in every context; defined values under out-of-range contexts likewise); long strings that start with a valid code (NUL / letter / blank fill at lengths 7..17, 255..257, 256+len, 512+len, 65536+len); codes: every string of length <= 3 over a 28-character alphabet (all code letters, lower case, digits, dash, space, tab) at every metric's parser plus rapid arbitrary strings; version: label parser/printer pairs of v3/metric and the legacy v3/version on generated labels and integers. Non-trivial = a string that is not a valid code of the metric (must parse to unknown), or a dependent-weight table; distinct by hash of (version, metric, string)."
 	c.rec.F.Assumptions = []string{"weights compared with ==: both sides are the nearest double of the same decimal literal", "for the v2 base metrics only separation by IsUnknown is required (its sense is the negation of its name)"}
 	nviol := 0
 	if shard == 0 {
@@ -454,6 +496,35 @@ func TestC20(t *testing.T) {
 			}
 		}
 		c.rec.Bulk("short-strings", evals, nt, map[string]int64{"short-string-at-parser": evals})
+	}
+	// ---- long strings that start with a valid code (fixed-size keys, length bytes, NUL fill)
+	{
+		var evals int64
+		j := 0
+		for _, a := range apis {
+			for _, code := range metricOf(a.ver, a.name).Codes {
+				for _, L := range []int{len(code) + 1, 7, 8, 9, 15, 16, 17, 255, 256, 257, 256 + len(code), 512 + len(code), 65536 + len(code)} {
+					if L <= len(code) {
+						continue
+					}
+					pads := []string{strings.Repeat("\x00", L-len(code)), strings.Repeat("A", L-len(code)), strings.Repeat(" ", L-len(code))}
+					if L > 8 {
+						pads = append(pads, strings.Repeat("\x00", 7-len(code))+strings.Repeat("A", L-7), strings.Repeat("\x00", 8-len(code))+strings.Repeat("A", L-8))
+					}
+					for _, pad := range pads {
+						j++
+						if nviol > 0 || !mine(j) {
+							continue
+						}
+						s := code + pad
+						evals++
+						cs := codeCase{Ver: a.ver, Metric: a.name, Code: []byte(s), Text: fmt.Sprintf("(%d bytes) %s", len(s), quoteShort([]byte(s)))}
+						evalEnum(c, "code", cs, checkC20Code, &nviol)
+					}
+				}
+			}
+		}
+		c.rec.Bulk("long-codes", evals, evals, map[string]int64{"long-string-with-code-prefix": evals})
 	}
 	c.rapidStage("rapid-codes", pick(50000, 2000000), func(rt *rapid.T) {
 		a := rapid.SampledFrom(apis).Draw(rt, "metric")
